@@ -23,7 +23,7 @@ UNITS_OF = {
     "C16": ["hash"],
     "C20": ["iter", "fixed_vector"],
     "C05": ["log"], "C10": ["log"], "C09": ["log"],
-    "C04": ["options"], "C11": ["options"], "C14": ["options"], "C03": ["options"],
+    "C04": ["options"], "C11": ["options"], "C14": ["options"], "C03": ["options"], "C01": ["options"], "C02": ["options"], "C12": ["options"], "C13": ["options"],
 }
 
 
@@ -56,7 +56,7 @@ def gen_harness(unit):
            "#ifdef NITRO_UNIT_GLOBALS\nNITRO_UNIT_GLOBALS\n#endif\n"
            "#ifndef NITRO_HAVOC_UNIT\n#define NITRO_HAVOC_UNIT\n#endif\n"
            "#define NITRO_HAVOC do { g_w = nondet_size_t(); g_n = nondet_size_t(); "
-           "for (int i_ = 0; i_ < 16; i_++) g_in[i_] = nondet_size_t(); NITRO_HAVOC_UNIT } while (0)\n"
+           "" + " ".join("g_in[%d] = nondet_size_t();" % i for i in range(16)) + " NITRO_HAVOC_UNIT } while (0)\n"
            '#define NITRO_CANARIES do { if (nitro_exc == 0) __CPROVER_assert(0, "CANARY returns normally"); '
            'else __CPROVER_assert(0, "CANARY raises"); } while (0)\n']
     for f in unit.functions:
@@ -273,13 +273,15 @@ def run_check(prop, a, bdir, seed, t0):
             if prop not in f.props or not f.enforce:
                 continue
             missing = [l for l in f.loops if not re.search(r"#define\s+%s\b" % l, ctext)]
-            if missing:
+            if missing and not f.unwind:
                 undecided.append("unannotated loop %s in %s" % (missing[0], f.name))
                 continue
             loops[f.name] = f.loops
             rep = [c for c in callees_of(f.text, contract_names, f.name) if c not in f.no_replace] + f.extra_replace
             defs = ["NITRO_ENF_%s=1" % f.name]
-            j = driver.Job(uname, f.name, "h_" + f.name, f.name, rep, [gen_c, har_c], defs, rec=f.rec, props=f.props)
+            j = driver.Job(uname, f.name, "h_" + f.name, f.name, rep, [gen_c, har_c], defs, rec=f.rec, props=f.props, unwind=f.unwind)
+            if f.unwind:
+                loops.pop(f.name, None)
             j.incdirs = [os.path.join(VERIF, "rt"), udir, ud]
             j.kf = kf_of.get(f.name, [])
             jobs.append(j)
@@ -288,7 +290,7 @@ def run_check(prop, a, bdir, seed, t0):
                 if prop not in k.get("properties", []) or not (a.tier == "thorough" or k.get("functions", [None])[0] == f.name):
                     continue
                 j2 = driver.Job(uname, f.name + "@" + k["name"], "h_" + f.name, f.name, rep, [gen_c, har_c],
-                                defs + ["NITRO_KF_REGION=1", "NITRO_KF_SEL_%s=1" % k["name"]], rec=f.rec, props=f.props)
+                                defs + ["NITRO_KF_REGION=1", "NITRO_KF_SEL_%s=1" % k["name"]], rec=f.rec, props=f.props, unwind=f.unwind)
                 j2.incdirs = j.incdirs
                 j2.kf = [k]
                 j2.is_full = True
